@@ -35,7 +35,7 @@ pub fn gen_step(s: &mut Pool2, rng: &mut Rng, ctx: &mut Ctx) -> Step {
         fault = match rng.below(3) {
             0 => Fault::SubCall(rng.range(2, 6) as u32),
             1 => Fault::Bank(rng.range(1, 3) as u32),
-            _ => Fault::SubCall(rng.range(2, 4) as u32),
+            _ => Fault::Query(rng.range(1, 4) as u32),
         };
     }
 
@@ -94,7 +94,16 @@ pub fn gen_step(s: &mut Pool2, rng: &mut Rng, ctx: &mut Ctx) -> Step {
             };
             let slippage = if rng.chance(1, 3) || s.cfg.boundary {
                 // values around the realised deviation
-                let dev = deposit_deviation18(amounts, r);
+                let dev = match &s.cfg.ptype {
+                    PType::Cp => deposit_deviation18(amounts, r),
+                    PType::Stable { amp } => crate::scen::stable2::predicted_mint(*amp, r, amounts, supply).and_then(|m| {
+                        // smallest t with (sum_p/S)(1-t) <= sum_d/m  =>  t = 1 - sum_d*S/(sum_p*m)
+                        let num = (u512(amounts[0]) + u512(amounts[1])) * u512(supply) * u512(E18);
+                        let den = (u512(r[0]) + u512(r[1])) * u512(m.max(1));
+                        let q = to_u128_512(num / den.max(u512(1)))?;
+                        Some(E18.saturating_sub(q))
+                    }),
+                };
                 let mut c = vec![0u128, E18 / 100, E18 / 2, E18, E18 + 1, 2 * E18];
                 if let Some(d) = dev {
                     c.extend_from_slice(&[d.saturating_sub(2), d.saturating_sub(1), d, d + 1, d + 2, d + 3]);
